@@ -16,10 +16,11 @@ Rec == ndJsonDeserialize(IOEnv.TRACE)
 
 VARIABLES l,        \* position in Rec
           memo12,   \* store value -> digests of the first validation of an equal store (C11, C12)
-          memo13,   \* <<cid, facts>> -> digest of the first result with equal content and facts (C13)
-          poison    \* the current scenario saw a call that did not return normally
+          memo13,   \* <<id, cid, facts>> -> digest of the first result with equal content and facts (C13)
+          poison,   \* the current scenario saw a call that did not return normally
+          stats     \* counters reported at the end of the trace (vacuity control)
 
-tvars == <<store, l, memo12, memo13, poison>>
+tvars == <<store, l, memo12, memo13, poison, stats>>
 
 Fail(prop, e, why) == PrintT("FAIL " \o ToJson([prop |-> prop, l |-> l, sid |-> e.sid, n |-> e.n, why |-> why]))
 
@@ -36,6 +37,17 @@ FactsOf(o, keys) ==
   ELSE [q \in ImpQNs(o.nodes) |-> IF q \in DOMAIN keys THEN keys[q] ELSE {}]
 
 -----------------------------------------------------------------------------
+\* kk: sequence of <<id, key, kind>>; some key is registered with two different kinds
+AmbiguousKeys(kk) == \E a, b \in DOMAIN kk : kk[a][2] = kk[b][2] /\ kk[a][3] # kk[b][3]
+
+\* imps: id -> sequence of <<path, name>>; some file imports one simple name from two places
+AmbiguousImports(imps) ==
+  \E id \in DOMAIN imps : \E a, b \in DOMAIN imps[id] : imps[id][a][2] = imps[id][b][2] /\ imps[id][a][1] # imps[id][b][1]
+
+\* the specification leaves a choice open for this project (C05 / Appendix A): which of several
+\* matching imports a name resolves to, which of several kinds registered under one key is seen
+FreeChoice(e) == AmbiguousKeys(e.kk) \/ AmbiguousImports(e.imps)
+
 (* Judgement of one validated observation *)
 JudgeObs(e, o, keys) ==
   /\ J("C01", e, "result tagged with foreign id", o.id = o.rid)
@@ -91,21 +103,26 @@ TValidate(e) ==
   LET s == IF Has(e.i) THEN store[e.i] ELSE Empty
       full == Fld(e, "obs")
       keys == IF full THEN KeysOf(e.obs) ELSE <<>>
-      M13 == IF full THEN {k \in DOMAIN e.obs : e.obs[k].id \in DOMAIN s} ELSE {}
-      K13(k) == <<s[e.obs[k].id], FactsOf(e.obs[k], keys)>>
+      M13 == IF full /\ ~FreeChoice(e) THEN {k \in DOMAIN e.obs : e.obs[k].id \in DOMAIN s} ELSE {}
+      K13(k) == <<e.obs[k].id, s[e.obs[k].id], FactsOf(e.obs[k], keys)>>
   IN /\ IF Has(e.i) THEN ReadOnly(e.i) ELSE store' = Put(store, e.i, Empty)
      /\ J("C01", e, "result keys differ from the ids held",
           SeqToSet(e.keys) = DOMAIN s /\ Len(e.keys) = Cardinality(DOMAIN s))
+     \* C11: the result, diagnostics in order, is a function of the (id, content) pairs
+     /\ J("C11", e, "result (with diagnostic order) differs from the first validation of an equal (id, content) map",
+          s \in DOMAIN memo12 => memo12[s].dig = e.dig)
+     \* C12: the same modulo the order of diagnostics, and only where the project does not register
+     \* one key with two kinds / import one simple name twice (there any pick is allowed; its stability is C11's)
      /\ J("C12", e, "result differs from the first validation of an equal (id, content) map",
-          s \in DOMAIN memo12 => memo12[s] = e.dig)
-     /\ memo12' = IF s \in DOMAIN memo12 THEN memo12 ELSE Put(memo12, s, e.dig)
+          (s \in DOMAIN memo12 /\ ~FreeChoice(e)) => memo12[s].sdig = e.sdig)
+     /\ memo12' = IF s \in DOMAIN memo12 THEN memo12 ELSE Put(memo12, s, [dig |-> e.dig, sdig |-> e.sdig])
      /\ IF full THEN
           /\ \A k \in DOMAIN e.obs : JudgeObs(e, e.obs[k], keys)
           /\ \A k \in M13 : J("C13", e, "result differs from an earlier one with equal content and import facts",
-                              K13(k) \in DOMAIN memo13 => memo13[K13(k)] = e.dig[e.obs[k].id])
+                              K13(k) \in DOMAIN memo13 => memo13[K13(k)] = e.sdig[e.obs[k].id])
           /\ memo13' = [x \in DOMAIN memo13 \cup {K13(k) : k \in M13} |->
                            IF x \in DOMAIN memo13 THEN memo13[x]
-                           ELSE e.dig[e.obs[CHOOSE k \in M13 : K13(k) = x].id]]
+                           ELSE e.sdig[e.obs[CHOOSE k \in M13 : K13(k) = x].id]]
         ELSE UNCHANGED memo13
      /\ UNCHANGED poison
 
@@ -115,9 +132,20 @@ TQuery(e) == /\ (IF Has(e.i) THEN ReadOnly(e.i) ELSE store' = Put(store, e.i, Em
 
 Queries == {"walk", "filter", "find", "lookups", "walktypes", "walkmethods", "walkargs", "key", "roundtrip"}
 
+Hit12(e) == e.ev = "validate" /\ ~poison /\ e.out = "ok" /\ Has(e.i) /\ store[e.i] \in DOMAIN memo12
+NObs(e) == IF e.ev = "validate" /\ ~poison /\ e.out = "ok" /\ Fld(e, "obs") THEN Len(e.obs) ELSE 0
+Hit13(e) == IF NObs(e) = 0 \/ ~Has(e.i) THEN 0
+            ELSE LET keys == KeysOf(e.obs) IN
+                 Cardinality({k \in DOMAIN e.obs : e.obs[k].id \in DOMAIN store[e.i]
+                                 /\ <<e.obs[k].id, store[e.i][e.obs[k].id], FactsOf(e.obs[k], keys)>> \in DOMAIN memo13})
+
 TNext ==
   /\ l <= Len(Rec)
   /\ l' = l + 1
+  /\ stats' = [h12 |-> stats.h12 + (IF Hit12(Rec[l]) THEN 1 ELSE 0),
+               h13 |-> stats.h13 + Hit13(Rec[l]),
+               obs |-> stats.obs + NObs(Rec[l])]
+  /\ (l = Len(Rec) => PrintT("STATS " \o ToJson(stats')))
   /\ LET e == Rec[l] IN
        IF e.ev = "Reset" THEN TReset(e)
        ELSE IF poison THEN UNCHANGED <<store, memo12, memo13, poison>>
@@ -129,7 +157,7 @@ TNext ==
               [] e.ev = "validate" -> TValidate(e)
               [] e.ev \in Queries -> TQuery(e)
 
-TInit == store = Empty /\ l = 1 /\ memo12 = Empty /\ memo13 = Empty /\ poison = FALSE
+TInit == store = Empty /\ l = 1 /\ memo12 = Empty /\ memo13 = Empty /\ poison = FALSE /\ stats = [h12 |-> 0, h13 |-> 0, obs |-> 0]
 
 TraceSpec == TInit /\ [][TNext]_tvars
 
